@@ -46,8 +46,21 @@ class Part:
         return 'part%d/%d(%r)' % (s.j, s.k, s.v)
 
 
+class Pack:
+    """a wide lane assembled from k narrower lane values (e.g. two 32-bit indices viewed as one 64-bit lane by a bitcast);
+    only taken apart again, never computed with"""
+    __slots__ = ('parts',)
+
+    def __init__(s, parts):
+        s.parts = list(parts)
+
+    def __repr__(s):
+        return 'pack(%r)' % (s.parts,)
+
+
 class Region:
-    __slots__ = ('name', 'kind', 'extent', 'elem', 'alloc', 'freed', 'ro', 'align', 'owner', 'in_extent')
+    __slots__ = ('name', 'kind', 'extent', 'elem', 'alloc', 'freed', 'ro', 'align', 'owner', 'in_extent', 'oid')
+    _count = 0
 
     def __init__(s, name, kind, extent=None, elem='any', alloc=None, ro=False, align=None):
         s.name = name
@@ -59,6 +72,8 @@ class Region:
         s.ro = ro
         s.align = align
         s.owner = None
+        Region._count += 1
+        s.oid = Region._count    # position in the virtual address layout (creation order)
         s.in_extent = None   # bytes of a caller buffer that are declared input; beyond it the buffer is output-only
 
     def __repr__(s):
@@ -594,6 +609,8 @@ class Interp:
                     out.extend((v >> (w * j)) & mask(w) for j in range(k))
                 elif isinstance(v, Undef):
                     out.extend([UNDEF] * k)
+                elif isinstance(v, Pack) and len(v.parts) == k:
+                    out.extend(v.parts)
                 else:
                     out.extend(Part(v, j, k) for j in range(k))
             return out
@@ -609,6 +626,8 @@ class Interp:
                     out.append(sum(q << (w * j) for j, q in enumerate(ps)))
                 elif all(isinstance(q, Undef) for q in ps):
                     out.append(UNDEF)
+                elif all(isinstance(q, (int, Poly)) for q in ps):
+                    out.append(Pack(ps))
                 else:
                     raise Incomplete('vector lanes recombined from different sources (%r)' % (ps,))
             return out
@@ -628,6 +647,17 @@ class Interp:
                 return ('f', {'fadd': x + y, 'fsub': x - y, 'fmul': x * y, 'fdiv': x / y if y else float('inf')}[op])
             raise Incomplete('float op')
         w = ty[1]
+        if op in ('add', 'sub') and isinstance(a, tuple) and a and a[0] == 'p2i' and isinstance(a[1], Ptr) and isinstance(b, (int, Poly)):
+            # address + byte count (overlap tests of the form (uintptr_t)p + n <= (uintptr_t)q)
+            return ('p2i', a[1].add(b if op == 'add' else (-b if isinstance(b, int) else -as_poly(b))))
+        if op == 'add' and isinstance(b, tuple) and b and b[0] == 'p2i' and isinstance(b[1], Ptr) and isinstance(a, (int, Poly)):
+            return ('p2i', b[1].add(a))
+        if op == 'sub' and isinstance(a, tuple) and isinstance(b, tuple) and a[0] == 'p2i' and b[0] == 'p2i' \
+                and isinstance(a[1], Ptr) and isinstance(b[1], Ptr) and a[1].reg is not b[1].reg:
+            # distance between two distinct objects in the virtual layout (objects are 2^48 bytes apart, in creation order)
+            k = (a[1].reg.oid - b[1].reg.oid) * (-1 if s.opts.get('layout_reverse') else 1)
+            d = as_poly(a[1].off) - as_poly(b[1].off) + (k << 48)
+            return (d.cval() & mask(w)) if d.isconst() else d
         if op == 'sub' and isinstance(a, tuple) and isinstance(b, tuple) and a[0] == 'p2i' and b[0] == 'p2i' \
                 and isinstance(a[1], Ptr) and isinstance(b[1], Ptr) and a[1].reg is b[1].reg:
             # difference of two addresses inside one object (std::vector size, end - begin)
@@ -668,15 +698,22 @@ class Interp:
             if op == 'xor':
                 return a ^ b
         if isinstance(a, (int, Poly)) and isinstance(b, (int, Poly)):
+            r = None
             if op == 'add':
-                return as_poly(a) + b
-            if op == 'sub':
-                return as_poly(a) - b
-            if op == 'mul':
+                r = as_poly(a) + b
+            elif op == 'sub':
+                r = as_poly(a) - b
+            elif op == 'mul':
                 r = as_poly(a) * b
+            elif op == 'shl' and isinstance(b, int):
+                r = as_poly(a) * (1 << b)
+            if r is not None:
+                if w <= 32:
+                    # arithmetic in a narrow type on shape-derived values: exact only while the result fits
+                    fits = s.opts.get('symbolic_fits')
+                    if fits is not None and fits(r, w) is False:
+                        raise Incomplete('trunc of symbolic value (%d-bit arithmetic on a shape value may overflow)' % w)
                 return r
-            if op == 'shl' and isinstance(b, int):
-                return as_poly(a) * (1 << b)
             hook = s.opts.get('symbolic_binop')
             if hook:
                 r = hook(s, op, a, b, ty)
@@ -703,6 +740,8 @@ class Interp:
             if not isinstance(b, list):
                 b = [b] * n
             return [s.icmp(pred, x, y, ty[2]) for x, y in zip(a, b)]
+        if isinstance(a, tuple) and a and a[0] == 'p2i' and isinstance(b, tuple) and b and b[0] == 'p2i':
+            a, b = a[1], b[1]
         if isinstance(a, Ptr) or isinstance(b, Ptr):
             if not (isinstance(a, Ptr) and isinstance(b, Ptr)):
                 raise Incomplete('pointer compared with non-pointer')
@@ -717,7 +756,10 @@ class Interp:
                 if ra.kind == 'param' and rb.kind == 'param' and not s.opts.get('params_distinct', True):
                     raise Incomplete('comparison of possibly aliasing parameters')
                 return int(pred == 'ne')
-            raise Incomplete('ordered comparison of pointers into different regions')
+            # distinct objects do not overlap; their relative order is fixed by a virtual layout (creation order, or the
+            # reverse when the caller asks for it: callers that care explore both)
+            lt = (a.reg.oid < b.reg.oid) != bool(s.opts.get('layout_reverse'))
+            return int({'ult': lt, 'ule': lt, 'ugt': not lt, 'uge': not lt}[pred])
         if isinstance(a, int) and isinstance(b, int):
             w = ty[1] if ty[0] == 'i' else 64
             if pred[0] == 's':
@@ -1228,6 +1270,9 @@ BUILTINS.update({
     '__kmpc_global_thread_num': lambda s, a, i: 0,
     '__kmpc_push_num_threads': lambda s, a, i: s.events.append(('push_num_threads', a[2])),
     '__kmpc_barrier': lambda s, a, i: None,
+    # `parallel ... if(cond)`: when the condition is false the region body is called directly between these two markers
+    '__kmpc_serialized_parallel': lambda s, a, i: None,
+    '__kmpc_end_serialized_parallel': lambda s, a, i: None,
 })
 
 
